@@ -134,6 +134,15 @@ RAW_COPIED = ["y = (1,\n     2)", "def f(a,\n      b):\n    return g(\n        a
               "z = f\'\'\'{{x}}  k\n {y} \'\'\'", "z = f\'\'\'a\n{x}\n  b\'\'\'", "s = \'\'\'a\n  b\n\'\'\'", "s = ('a'\n     'b')",
               "x = d['a':\n      'b']", "t = f(\n        a,\n  b)", "w = f\"{a!r:>{w}}\" + f'{{x}}  {y}'"]
 
+# Physical lines of a token that spans several lines (a triple-quoted string / f-string) inside raw macro text.
+# The formatter copies macro text from its source-line cache, starting where the previous token *ends*: for a token
+# with embedded newlines that end has to be computed (line += newlines, column = length of the last line), and the
+# text that follows the closing quotes on the same line (`"""a<newline>b"""   tail  x`) shows whether it was.
+ML_TOKEN_LINES = ["a", "first", "second", "  x  y", "<p>{}</p>", "k = v", "a,b", "$HOME", "\\d+", "ünï", "", "    deep", "x == 1", "a:b",
+                  "-- opt", "[1,  2]"]
+ML_FTOKEN_LINES = ["a", "{x}", "  {x}  y", "{{b}}", "k = {y}", "{a},{b}", "", "{x!r:>{w}}", "ünï {n}", "    deep"]
+ML_TAILS = ["tail  x", "%  ctx", "+  x", "b  c", ",   1", "|  cat", "a=b", "x", ".strip()", "*  2", "&&  ls", "-v   --k=v", "%  (a ,b)", "[0]"]
+
 import re
 
 _PYPART = re.compile(r"@\([^)]*\)|\$\{[^}]*\}|'[^'\n]*'|\"[^\"\n]*\"")
@@ -323,8 +332,42 @@ class XGen:
         return out
 
     # -- macros --------------------------------------------------------------------------
-    def raw(self):
+    def raw(self, ml=True):
+        if ml and self.chance(1, 6):
+            return self.ml_raw()
         return self.pick(MACRO_RAW)
+
+    def ml_token(self):
+        """A token that spans several physical lines: a triple-quoted string or f-string (2-4 lines, any prefix), or a
+        quoted string continued with a backslash-newline.  Lines of the literal end in blanks only when F01 may show."""
+        if self.chance(1, 8):
+            self.lab("ml-token:backslash-continued-string")
+            return self.pick(["'one \\\ntwo'", '"a  b \\\n  c"', "'x\\\ny'", "'a \\\n  b \\\nc'"])
+        q = self.pick(['"' * 3, "'" * 3])
+        prefix = self.pick(["", "", "", "r", "b", "u", "R", "f", "rf", "F"])
+        fstr = "f" in prefix.lower()
+        self.lab("ml-token:triple-quoted-" + ("fstring" if fstr else "string"))
+        pool = ML_FTOKEN_LINES if fstr else ML_TOKEN_LINES
+        lines = [self.pick(pool) for _ in range(2 + self.k(3))]
+        if self.chance(1, 4):
+            lines[0] = ""                                   # the opening quotes end their line
+        if self.chance(1, 4):
+            lines[-1] = self.pick(["", "    ", "  "])       # the closing quotes stand (indented) on a line of their own
+        if self.chance(1, 5) and self.off("C17-F01"):
+            at = self.k(len(lines) - 1)
+            lines[at] += self.pick(["  ", " ", "\t"])
+        body = "\n".join(lines)
+        if "b" in prefix.lower():
+            body = body.encode("ascii", "ignore").decode("ascii")
+        if "r" not in prefix.lower():
+            body = body.replace("\\d", "\\\\d")
+        return prefix + q + body + q
+
+    def ml_raw(self):
+        """raw macro text that holds a multi-line token which is followed, on its closing line, by blanks and more text"""
+        self.lab("macro:multi-line-token-then-text")
+        pre = self.pick(["", "", "a   ", "x  =  ", "-m  ", "1 +  "])
+        return pre + self.ml_token() + self.pick(["  ", "   ", " ", "\t", "    ", "  \t "]) + self.pick(ML_TAILS)
 
     def alias_macro(self):
         self.lab("macro:alias")
@@ -372,7 +415,7 @@ class XGen:
         head = self.pick(["with! ctx:", "with!  ctx :", "with! ctx as y:", "with! a, b:", "with! open('f')  as  g:", "with! ctx(1 ,2):",
                           "with! Block():", "with! ctx  :  "])
         if self.chance(1, 8):
-            return [ind + head.rstrip(" ").rstrip(":").rstrip() + ": " + self.raw()]
+            return [ind + head.rstrip(" ").rstrip(":").rstrip() + ": " + self.raw(ml=False)]
         lines = [ind + head]
         body_unit = self.pick([unit, unit, "  ", "    ", "\t", "      "])
         n = 1 + self.k(4)
@@ -383,7 +426,7 @@ class XGen:
                 extra = self.pick(["  ", "    ", "\t"])
             if i > 0 and c == 1:
                 lines.append(self.pick(["", "", "   ", ind + body_unit]))
-            t = self.pick([self.raw(), self.raw(), self.pick(PY_SIMPLE).split("\n")[0].rstrip("\\ "), self.command(False).replace("!", ""), "<tag  a='1'>", "</tag>",
+            t = self.pick([self.raw(ml=False), self.raw(ml=False), self.pick(PY_SIMPLE).split("\n")[0].rstrip("\\ "), self.command(False).replace("!", ""), "<tag  a='1'>", "</tag>",
                            "raw   text  here", "# only  a  comment", "x  =  1   # c"])
             lines.append(ind + body_unit + extra + t + self.pick(["", "", "", "  "]))
         return lines
